@@ -29,7 +29,10 @@ OTHER_PDUS = [[8, 0, 0, 0x12, 0x34], [8, 0, 1, 0, 0], [8, 0, 2, 0, 0], [8, 0, 3,
               [43, 14, 3, 0x80], [43, 14, 4, 5], [17], [7], [11], [12], [24, 0, 0], [20, 7, 6, 0, 1, 0, 0, 0, 2],
               [21, 9, 6, 0, 1, 0, 0, 0, 1, 0xAB, 0xCD]]
 UNKNOWN_SUB = [[8, 0x12, 0x34, 0, 0], [8, 0, 5, 0, 0], [8, 0xFF, 0xFF], [8], [8, 0], [43, 13, 1, 0], [43, 14, 9, 0], [43, 14, 0, 0],
-               [43], [43, 14], [43, 14, 1], [43, 14, 1, 0, 0], [20, 0], [20, 7, 6], [21, 200, 6, 0, 1], [24], [24, 0], [22, 0, 1]]
+               [43], [43, 14], [43, 14, 1], [43, 14, 1, 0, 0], [20, 0], [20, 7, 6], [21, 200, 6, 0, 1], [24], [24, 0], [22, 0, 1],
+               # file-record sub-requests with a reference type other than 6, first and second in the list
+               [21, 9, 7, 0, 4, 0, 7, 0, 1, 0xBE, 0xEF], [20, 7, 7, 0, 1, 0, 0, 0, 2], [20, 14, 6, 0, 1, 0, 0, 0, 2, 0, 0, 1, 0, 0, 0, 2],
+               [21, 18, 6, 0, 1, 0, 0, 0, 1, 0xAB, 0xCD, 5, 0, 1, 0, 0, 0, 1, 0x12, 0x34]]
 WRITE_FCS = (5, 6, 15, 16, 22, 23)
 INERT = [b for b in range(256) if b not in WRITE_FCS]
 
@@ -241,7 +244,8 @@ def check(ctx, rep, cases):
         # (a)
         if any(escs):
             i = next(i for i, e in enumerate(escs) if e)
-            rep.violation('an exception escaped the serving entry point of the front-end', case, index=i, escaped=escs[i],
+            rep.violation('the serving loop never came back from a receive call (it hangs: other and future connections are not served)'
+                          if escs[i] == 'hang' else 'an exception escaped the serving entry point of the front-end', case, index=i, escaped=escs[i],
                           chunk=c['schedule'][i][1][:64])
             continue
         # (b)
